@@ -201,7 +201,7 @@ def db_pool(r, quick):
 
 def edge_variant_db(r):
     """generated database; sometimes a SNP on the very last RefSeq base"""
-    y = gen_gene.gen_gene(r, offsets=(10000, 20000), pseudogene=r.random() < 0.5)
+    y = gen_gene.gen_gene(r, offsets=(10000, 20000), pseudogene=r.random() < 0.5, ascending38=r.random() < 0.4)
     if r.random() < 0.35:
         doc = yaml.safe_load(y)
         seq = doc["reference"]["seq"]
